@@ -72,12 +72,42 @@ pub fn run_case(id: &str, r: &mut Rng, out: &mut String) {
     out.push_str("end\n");
 }
 
+/// `-b` keys are security names, compared exactly: an opening position given for a name that
+/// differs from the CSV's security only in letter case belongs to another security and must
+/// leave the report as it is without any `-b`.
+pub fn run_casekey_case(id: &str, r: &mut Rng, out: &mut String) {
+    let mut names = vec!["Default".to_string()];
+    let (rows0, _) = app::gen_security(r, "S0", &mut names);
+    let mut lists = vec![rows0];
+    if r.chance(40) {
+        let (rows1, _) = app::gen_security(r, "S1", &mut names);
+        lists.push(rows1);
+    }
+    let rows = app::interleave(r, lists);
+    let n = Decimal::new(r.range(1, 200), 0);
+    let c = n * Decimal::new(r.range(1, 5000), 2);
+    let inits = vec![("s0".to_string(), n, c)];
+    let case_a = AppCase { names: names.clone(), rows: rows.clone(), inits: vec![], cuts: vec![] };
+    let uni = app::universe(&case_a);
+    let res_a = app::run_app(&rows, &[], &inits);
+    let res_b = app::run_app(&rows, &[], &[]);
+    out.push_str(&format!("case {} symbase zero=1 n={} c={} casekey=1\n", id, n, c));
+    app::emit_result(&uni, "implA", &res_a, out);
+    app::emit_result(&uni, "implB", &res_b, out);
+    let mut repro = format!("A: -b s0:{}:{}   B: no -b\n", n, c);
+    repro.push_str(&app::txs_to_csv(&rows));
+    out.push_str(&format!("repro {}\n", oneline(&repro)));
+    out.push_str("end\n");
+}
+
 /// Malformed and well-formed `-b` strings through the real parser.
 pub fn run_parse_case(id: &str, r: &mut Rng, out: &mut String) {
     let good = format!("SYM:{}:{}", r.range(0, 500), Decimal::new(r.range(0, 100000), 2));
     let variants: Vec<(String, bool)> = vec![
         (good.clone(), true),
         (" SYM :1.5:0".to_string(), true),
+        ("Brk.b:1.25:300".to_string(), true),
+        ("goog:20:1000.00".to_string(), true),
         ("SYM:0:0".to_string(), true),
         ("SYM:1".to_string(), false),
         ("SYM:1:2:3".to_string(), false),
@@ -98,15 +128,33 @@ pub fn run_parse_case(id: &str, r: &mut Rng, out: &mut String) {
     list.insert(pos, spec.clone());
     let res = catch(|| parse_initial_status(&list));
     let got = match &res {
-        Ok(Ok(_)) => "ok".to_string(),
+        Ok(Ok(m)) => {
+            // the parsed entries, sorted: symbol|shares|acb
+            let mut items: Vec<String> = m
+                .iter()
+                .map(|(k, v)| {
+                    format!(
+                        "{}|{}|{}|{}",
+                        k.replace(' ', "\\s"),
+                        v.security.replace(' ', "\\s"),
+                        *v.share_balance,
+                        v.total_acb.map(|a| a.to_string()).unwrap_or("-".to_string())
+                    )
+                })
+                .collect();
+            items.sort();
+            format!("ok {}", items.join(" "))
+        }
         Ok(Err(_)) => "err".to_string(),
         Err(p) => format!("panic {}", oneline(p)),
     };
     out.push_str(&format!(
-        "case {} symparse expect={}\nin {}\nimpl {}\nrepro -b {:?}\nend\n",
+        "case {} symparse expect={} which={}\nin {}\nin {}\nimpl {}\nrepro -b {:?}\nend\n",
         id,
         if expect_ok { "ok" } else { "err" },
-        oneline(&spec).replace(' ', "\\s"),
+        pos,
+        oneline(&list[0]).replace(' ', "\\s"),
+        oneline(&list[1]).replace(' ', "\\s"),
         got,
         list
     ));
